@@ -378,37 +378,76 @@ func TestC18_Random(t *testing.T) {
 }
 
 
-// TestC18_Lifecycle: the registry is idempotent across a Refresh/Destroy cycle too: a name
-// registered before keeps its tag object and the list of all tags is unchanged by the cycle.
+// TestC18_Lifecycle: the registry is idempotent across the configuration life cycle too. rapid
+// draws a history over {register an accepted name (new or seen), register a rejected name,
+// Refresh with a valid configuration, Refresh with an invalid one, Destroy}; after every step a
+// name registered earlier still yields the tag object handed out first, and at generated points
+// the list of all tags is exactly the set of names registered.
 // (Runs last: the other tests of this package need a process that has not been configured.)
 func TestC18_Lifecycle(t *testing.T) {
 	if vk.ReplayCase() != "" {
 		t.Skip()
 	}
 	initModel()
-	names := []string{"_c18_life", "c18x_a_b_c", "_app_def", "zz9"}
-	before := map[string]*log.Tag{}
-	for _, n := range names {
-		before[n] = log.RegisterTag(n)
-		modelSet[n] = true
-		model[n] = before[n]
-	}
-	list := slices.Clone(log.GetAllTags())
-	for round := 0; round < 3; round++ {
-		if err := log.Refresh(map[string]string{"appender.d.type": "Discard"}); err != nil {
-			t.Fatalf("VERIF-INCONCLUSIVE C18: %v", err)
-		}
+	seg := rapid.StringMatching(`[a-z0-9]{1,4}`)
+	rapid.Check(t, func(t *rapid.T) {
+		var mine []string // names this history registered, in order
+		var ops []string
+		configured := false
+		t.Repeat(map[string]func(*rapid.T){
+			"register": func(t *rapid.T) {
+				var name string
+				if len(mine) > 0 && rapid.IntRange(0, 2).Draw(t, "again") == 0 {
+					name = rapid.SampledFrom(mine).Draw(t, "seen")
+				} else {
+					name = "c18l" + strings.Join(rapid.SliceOfN(seg, 1, 3).Draw(t, "segs"), "_")
+					if rapid.Bool().Draw(t, "lead") {
+						name = "_" + name
+					}
+				}
+				ops = append(ops, "register "+name)
+				vk.Eval()
+				if checkName(t, name) {
+					mine = append(mine, name)
+				}
+			},
+			"registerBad": func(t *rapid.T) {
+				name := rapid.SampledFrom([]string{"c18l__x", "C18l_x", "c18l_a_b_c_d_e", "c18l_", "__c18l", "c18l-x"}).Draw(t, "bad")
+				ops = append(ops, "register "+name)
+				vk.Eval()
+				checkName(t, name)
+			},
+			"refreshValid": func(t *rapid.T) {
+				ops = append(ops, "refresh-valid")
+				if err := log.Refresh(map[string]string{"appender.d.type": "Discard"}); err == nil {
+					configured = true
+				}
+			},
+			"refreshInvalid": func(t *rapid.T) {
+				ops = append(ops, "refresh-invalid")
+				_ = log.Refresh(map[string]string{"logger.lt.type": "Logger"})
+			},
+			"destroy": func(t *rapid.T) {
+				ops = append(ops, "destroy")
+				log.Destroy()
+				if configured {
+					vk.NonTrivial(strings.Join(ops, ";"))
+				}
+				configured = false
+			},
+			"": func(t *rapid.T) {
+				for _, n := range mine {
+					var again *log.Tag
+					if p := vk.Catch(func() { again = log.RegisterTag(n) }); p != nil || again != model[n] {
+						failCase(t, n, fmt.Sprintf("after the history [%s] registering an accepted name again: panic=%v, same tag as first handed out=%v", strings.Join(ops, "; "), p, again == model[n]))
+					}
+				}
+				if len(ops)%7 == 0 {
+					checkRegistry(t, "after the history ["+strings.Join(ops, "; ")+"]")
+				}
+			},
+		})
 		log.Destroy()
-		for _, n := range names {
-			vk.Eval()
-			if again := log.RegisterTag(n); again != before[n] {
-				failCase(t, n, fmt.Sprintf("after %d Refresh/Destroy cycle(s) registering an accepted name again returned a different tag", round+1))
-			}
-		}
-		if got := log.GetAllTags(); !slices.Equal(got, list) {
-			failCase(t, "", "a Refresh/Destroy cycle changed the list of all tags")
-		}
-	}
-	vk.NonTrivial("lifecycle")
-	checkRegistry(t, "after lifecycle")
+		checkRegistry(t, "after the history ["+strings.Join(ops, "; ")+"] and Destroy")
+	})
 }
